@@ -12,6 +12,7 @@ import AlgopyVerif.Model.Tracer
 import AlgopyVerif.Model.Index
 import AlgopyVerif.Model.Drivers
 import AlgopyVerif.Model.Linalg
+import AlgopyVerif.Model.Pade
 import Lean.Data.Json
 /-!
 # Request dispatch of the model driver (JSON codec + operation table)
@@ -567,7 +568,23 @@ def handlePiv (j : Json) : Except String Json := do
   pure (Json.mkObj [("swap", toJson (pivSwap piv.toList).toArray), ("W", toJson W.toArray),
     ("det", toJson (piv2detF piv.toList))])
 
+/-- Pade tables of `expm_pade`: `{"op":"pade","q":q,"x":"p/q"}` -> `U`, `V` of `_expm_pade<q>` for a scalar argument; with `"norm"`: the
+order `expm_higham_2005` picks (0: scaling branch) -/
+def handlePade (j : Json) : Except String Json := do
+  match (j.getObjValAs? String "norm").toOption with
+  | some ns =>
+    match parseRat ns with
+    | some v => pure (Json.mkObj [("order", toJson ((highamOrder v).getD 0))])
+    | none => throw "bad rat"
+  | none =>
+    let q ← j.getObjValAs? Nat "q"
+    let xs ← j.getObjValAs? String "x"
+    match parseRat xs with
+    | some x => pure (Json.mkObj [("U", Json.str (showRat (padeU q x))), ("V", Json.str (showRat (padeV q x)))])
+    | none => throw "bad rat"
+
 def handle (j : Json) : Except String Json := do
+  if (j.getObjValAs? String "op").toOption == some "pade" then return (← handlePade j)
   if (j.getObjValAs? String "op").toOption == some "drivers" then return (← handleDrivers j)
   if (j.getObjValAs? String "op").toOption == some "tracer" then return (← handleTracer j)
   if (j.getObjValAs? String "op").toOption == some "nth" then return (← handleNth j)
